@@ -45,6 +45,8 @@ REQUIRED_CLASSES = {
     "filter-emptied-parallel": 100,
     "layout:uneven": 300,
     "layout:multi-host": 300,
+    "driver-level": 60,
+    "driver-level:host-listed-twice": 30,
 }
 
 KNOWN_EMPTY = "empty-parallel-from-filter"
@@ -73,8 +75,21 @@ def _case(draw, tier):
     return {"schedule": spec, "filter": flt, "cores": cores, "clients": clients}
 
 
+@st.composite
+def _driver_case(draw):
+    """what Driver.start_benchmark really hands to the workers it creates (run on the actor simulator E1): hosts may be listed twice"""
+    n_entries = draw(st.integers(1, 4))
+    alias = [0]
+    for _ in range(n_entries - 1):
+        alias.append(draw(st.integers(0, max(alias) + 1)))
+    if n_entries >= 2 and draw(st.booleans()):
+        alias[draw(st.integers(1, n_entries - 1))] = draw(st.sampled_from(alias))  # some machine is named twice (adjacent or not)
+    return {"driver": True, "cores": [draw(st.integers(1, 4))] * n_entries, "alias": alias, "clients": draw(st.integers(1, 12)),
+            "second_task_clients": draw(st.integers(1, 3))}
+
+
 def strategy(tier, known):
-    return _case(tier)
+    return st.integers(0, 11).flatmap(lambda k: _driver_case() if k == 0 else _case(tier))
 
 
 def _in_known_region(case):
@@ -161,7 +176,40 @@ def _check_layout(cores, clients, obs):
     return uneven
 
 
+def _run_driver(case, obs):
+    from sim import race as sim_race  # pylint: disable=import-outside-toplevel
+
+    def leaf(name, clients):
+        return {"name": name, "clients": clients, "stride": 1, "mode": "iterations", "warmup_iterations": None, "iterations": 1,
+                "requests": [{"pre": 0, "wire": [[0, 0.125]], "post": 0, "outcome": "ok", "shape": "dict", "weight": 1, "unit": "ops"}]}
+
+    n = case["clients"]
+    race = {"schedule": [leaf("a", n), leaf("b", min(n, case["second_task_clients"]))], "hosts": case["cores"], "host_alias": case["alias"],
+            "test_mode": True, "offsets": [0.0], "delays": [0], "wake_late": [0], "prep_tasks": [], "preempt": None, "quiet": True}
+    r = sim_race.run_race(race)
+    workers = [rec.instance for rec in r.rt.instances(driver.Worker)]
+    handed = []
+    for w in workers:
+        ids = [a["client_id"] for a in w.client_allocations.allocations] if getattr(w, "client_allocations", None) is not None else []
+        obs.check(ids == list(range(ids[0], ids[0] + len(ids))) if ids else True, "driver/not-contiguous", lambda: f"a worker got clients {ids}")
+        handed += ids
+    where = f"hosts {case['alias']} x {case['cores'][0]} cores, {n} clients"
+    obs.check(sorted(handed) == list(range(n)), "driver/clients-lost-or-duplicated", lambda: f"{where}: the workers that were started hold client ids {sorted(handed)}")
+    ran = sorted(q["client"] for q in r.requests if q["task"] == "a")
+    obs.check(ran == list(range(n)), "driver/task-not-run-by-all-clients", lambda: f"{where}: task a ({n} clients) was executed by client indexes {ran}")
+    ran_b = sorted(q["client"] for q in r.requests if q["task"] == "b")
+    obs.check(ran_b == list(range(min(n, case["second_task_clients"]))), "driver/task-not-run-by-all-clients", lambda: f"{where}: task b was executed by client indexes {ran_b}")
+    obs.check(r.state["complete"] and not r.state["failed"], "driver/race-did-not-complete", lambda: f"{where}: {r.state}")
+    obs.cls("driver-level")
+    if len(set(case["alias"])) < len(case["alias"]):
+        obs.cls("driver-level:host-listed-twice")
+    obs.mark_nontrivial(len(case["alias"]) >= 2 and n >= 2)
+
+
 def run_case(case, obs):
+    if case.get("driver"):
+        _run_driver(case, obs)
+        return
     layout_nt = _check_layout(case["cores"], case["clients"], obs)
     if case.get("schedule") is None:
         obs.cls("layout-only")
